@@ -165,6 +165,7 @@ fn c09_offset_len9() {
     offset_body::<9>();
 }
 
+// @begin needs: fn parse_rule_time\(cursor: &mut Cursor<'_>\) -> Result<i32, TzStringError> ;; fn parse_rule_time_extended\(cursor: &mut Cursor<'_>\) -> Result<i32, TzStringError>
 fn rule_time_body<const L: usize>(ext: bool) {
     let (buf, len) = any_ascii::<L>();
     let mut cursor: &[u8] = &buf[..len];
@@ -203,6 +204,7 @@ fn c09_rule_time_extended_len5() {
 fn c09_rule_time_extended_len10() {
     rule_time_body::<10>(true);
 }
+// @end
 
 fn rule_day_body<const L: usize>() {
     let (buf, len) = any_ascii::<L>();
@@ -309,6 +311,7 @@ fn c09_parse_int_real_utf8_len3() {
     kani::cover!(matches!(&r, Ok(x) if *x == 999));
 }
 
+// @begin needs: fn parse_rule_time\(cursor: &mut Cursor<'_>\) -> Result<i32, TzStringError> ;; fn parse_rule_time_extended\(cursor: &mut Cursor<'_>\) -> Result<i32, TzStringError>
 // ------------------------------------------------------------------ rule block: default time 02:00:00, extension flag selects the time parser
 static RT_CALLS: AtomicUsize = AtomicUsize::new(0);
 static RTX_CALLS: AtomicUsize = AtomicUsize::new(0);
@@ -377,6 +380,51 @@ fn c09_rule_block() {
     }
     kani::cover!(matches!(&r, Ok((_, t)) if *t == 7200));
     kani::cover!(r.is_ok() && RTX_CALLS.load(AO::Relaxed) == 1);
+}
+// @end
+
+// ------------------------------------------------------------------ rule block with the REAL time parsers behind it: this harness names only
+// `parse_rule_block`, so it survives refactors of the private time parsers (merged, renamed, re-typed) that cost the unit harnesses above
+fn rule_block_real_body<const L: usize>(ext: bool) {
+    let (tail, tl) = any_ascii::<L>();
+    let mut buf = [0u8; 12];
+    buf[0] = b'5';
+    buf[1] = b'/';
+    let mut i = 0;
+    while i < L {
+        buf[2 + i] = tail[i];
+        i += 1;
+    }
+    let len = 2 + tl;
+    let mut cursor: &[u8] = &buf[..len];
+    let r = parse_rule_block(&mut cursor, ext);
+    let mut pos = 2;
+    let want = r_rule_time(&buf[..len], &mut pos, ext);
+    match (&r, want) {
+        (Ok((d, t)), Some(w)) => {
+            assert!(same_day(d, RDay::Z(5)));
+            assert!(*t as i64 == w);
+            assert!(cursor.len() == len - pos);
+        }
+        (Err(_), None) => {}
+        _ => assert!(false),
+    }
+    kani::cover!(matches!(&r, Ok((_, t)) if *t % 60 != 0));
+    kani::cover!(r.is_err() && tl > 0 && tail[0] == b'+');
+}
+
+#[kani::proof]
+#[kani::unwind(9)]
+#[kani::stub(core::str::from_utf8, stub_from_utf8)]
+fn c09_block_real_time_posix_len5() {
+    rule_block_real_body::<5>(false);
+}
+
+#[kani::proof]
+#[kani::unwind(9)]
+#[kani::stub(core::str::from_utf8, stub_from_utf8)]
+fn c09_block_real_time_ext_len5() {
+    rule_block_real_body::<5>(true);
 }
 
 // ------------------------------------------------------------------ composition: parse_posix_tz with abstracted sub-parsers
